@@ -148,6 +148,17 @@ CHECKS = {
         'its agreement with the others on non-official versions is checked on the implementation (17 version strings x 5 deciders). extend() is non-atomic in code and model alike. Print Assumptions: closed under the global context.',
    technique='translator-regenerated kind tables + Coq invariant proof by induction over the store history + lock-step correspondence',
    design='DESIGN.md §3 C10'),
+ 'C17': dict(
+   text='Machine-checked proof (Coq) over a model of zoneinfo.py in which pytz is an ORACLE (zoff z i = the UTC offset zone z has at instant i) and every theorem holds for an arbitrary oracle, hence at every transition of every zone, '
+        'ambiguous and skipped local times included: _map_timezones yields a one-to-one map for ANY Haystack list and ANY duplicate-free host list, and on the lists REGENERATED on every run (HAYSTACK_TIMEZONES of the source, pytz.all_timezones of this host); '
+        'a date-time in a mapped zone carrying that zone\'s offset is written with that zone\'s Haystack name and read back with the same instant, offset and zone; for any other tz-aware date-time the writer names a zone whose offset at that instant '
+        'equals the value\'s (UTC for a zero offset) or raises ValueError, nothing else; the written text denotes the value\'s instant and offset and reading never moves the instant. '
+        'Tied by the model map vs get_tz_map(), and the model\'s timezone_name / write / read with the oracle\'s answers materialised per case vs the implementation.',
+   note='Calendar arithmetic is not modelled: isoformat() / iso8601.parse_date are taken as a bijection between (local time, offset) and text (the search exercises it on every case, microseconds included; C02_datetime proves the JSON matcher on the text). '
+        'pytz (offsets, astimezone) is the oracle; function bodies of zoneinfo.py and of the readers\' date-time branches are pinned by the translator (fails closed). A zone-less date-time whose offset no zone has is refused with ValueError '
+        '(allowed by this property; a known finding of C07). thorough: all mapped zones x all tabulated transitions 1902..2037 x 5 deltas, all 1681 whole-minute fixed offsets. Print Assumptions: closed under the global context.',
+   technique='Coq proof parametric in the zone oracle (NoDup invariants of the map construction, lookup inversion) over regenerated lists + correspondence with materialised oracle answers + exhaustive transition search',
+   design='DESIGN.md §3 C17'),
 }
 PENDING = {}
 for i in range(1, 21):
